@@ -1,20 +1,13 @@
-"""Single source for MANIFEST.json: one entry per claimed property; everything else is listed
-under not_applicable with the reason.  `bin/mkmanifest` regenerates MANIFEST.json from this."""
+"""Single source for MANIFEST.json: one JSON file per claimed property under lib/manifest/<id>.json
+(keys: engine, technique, category, text, design_ref, note); everything else is listed under
+not_applicable with the reason from NA (or PENDING_REASON).  `bin/mkmanifest` regenerates MANIFEST.json."""
+import glob, json, os
 
-CHECKS = {
-    "C20": {
-        "engine": "Health",
-        "technique": "TLA+ closed model (TLC exhaustive) + TLC-enumerated behaviours replayed on nodepoolhealth.State + TLC trace validation",
-        "category": "model_checking",
-        "text": "Health.tla relates the ideal four-outcome window to the ring buffer as implemented (refinement, what-if agreement, "
-                "per-step condition rule) and is checked exhaustively; every action sequence up to depth 7 (9 thorough) plus seeded "
-                "deep TLC simulations is replayed on the real State and each recorded DryRun/Status result is re-derived by "
-                "Health_Trace.tla from the ideal window.",
-        "design_ref": "DESIGN.md §4 C20",
-        "note": "trusts TLC, the Json module, and that State.Update/DryRun/Status/SetStatus are the only mutators of the window",
-    },
-}
+HERE = os.path.dirname(os.path.abspath(__file__))
+CHECKS = {}
+for p in sorted(glob.glob(os.path.join(HERE, "manifest", "C*.json"))):
+    CHECKS[os.path.basename(p)[:-5]] = json.load(open(p))
 
+NA = {}
 PENDING_REASON = "check not built yet in this session (planned per DESIGN.md §8); not claimed until its machinery exists"
-
 ALL = ["C%02d" % i for i in range(1, 21)]
